@@ -86,6 +86,11 @@ def beartyping(
         claw_lock,
         claw_state,
     )
+    from beartype.claw._package._clawpkgmake import make_conf_hookable
+
+    # Hookable beartype configuration actually registered by the beartype_all()
+    # function called below, which the cleanup logic below compares against.
+    conf = make_conf_hookable(conf)
 
     # Prior global beartype configuration registered by a prior call to the
     # beartype_all() function if any *OR* "None" otherwise.
